@@ -178,6 +178,11 @@ Z = [
     # ---- DDL
     ("ddl_create_table", ["create table {i:newt} ({i:a} int, {i:b} varchar(10))"], "m"),
     ("ddl_create_table_q", ["create table {q:NewQ} ({q:a} int)"], "m"),
+    # a name handed over through IDENTIFIER('..') is an identifier like one written out: folded unless quoted inside the literal
+    ("ddl_create_table_identifier_fn", ["create table identifier('newt_fn') ({i:a} int)"], "m"),
+    ("ddl_create_table_identifier_fn_fq", ["create table identifier('db1.s1.newt_fq') ({i:a} int)"], "m"),
+    ("ddl_create_table_identifier_fn_q", ["create table identifier('\"newt_Fq\"') ({i:a} int)"], "m"),
+    ("ddl_drop_table_identifier_fn", ["create table {i:tmpd} ({i:a} int)", "drop table identifier('tmpd')"], "m"),
     ("ddl_create_table_q_dotted", ["create table {q:S2.DOTTED} ({q:ORDER ID} int, {q:X.Y} varchar(5))", "insert into {q:S2.DOTTED} ({q:ORDER ID}) values (1)",
                                    "select {q:ORDER ID} from {q:S2.DOTTED}"], "m"),
     ("ddl_create_table_types", ["create table {i:typed} ({i:a} number(12,3), {i:b} float, {i:c} boolean, {i:d} date, {i:e} timestamp_ntz, {i:f} variant, {i:g} binary, {i:h} time, {i:i} timestamp_tz, {i:j} string, {i:k} text, {i:l} bigint, {i:m} array, {i:n} object)"], "m"),
